@@ -233,12 +233,12 @@ def run_unroll(ctx):
     """contract_with_unroll gives the same tensor for every admissible path / unrolling / slicing."""
     import yastn
     rng = ctx.rng
-    n = 70 if ctx.quick else 800
+    n = 160 if ctx.quick else 1600
     t0 = ctx.elapsed()
     for it in range(n):
-        if ctx.elapsed() - t0 > (20 if ctx.quick else 240):
+        if ctx.elapsed() - t0 > (25 if ctx.quick else 300):
             break
-        sym = rng.choice(["U1", "Z2", "Z3", "Z2xU1", "dense", "U1xU1"])
+        sym = rng.choice(["U1", "Z2", "Z3", "dense", "Z2xU1", "U1xU1", "U1xU1xZ2", "Z2xU1"])
         cfg = tgen.make_cfg(sym, rng.choice(tgen.POLICIES), "hard")
         nt = rng.randint(2, 4)
         legs = [tgen.rand_leg(rng, cfg, sym, s=1, max_sectors=3, max_dim=4) for _ in range(nt + 1)]
@@ -273,6 +273,9 @@ def run_unroll(ctx):
             continue
         all_labels = sorted({l for lab in labels for l in lab})
         which = rng.sample(all_labels, rng.randint(1, min(2, len(all_labels))))
+        if rng.random() < 0.5 and not any(l in out for l in which):   # unrolled OUTPUT indices (partial results are embedded)
+            which[0] = rng.choice(out)
+        ctx.count(f"unroll:output-index-unrolled:{any(l in out for l in which)}")
         unroll, desc = {}, {}
         for l in which:
             # slice the FULL leg space of the label (a valid partition has to cover every sector any operand holds)
